@@ -465,3 +465,180 @@ def rule_W5(ctx):
         else:
             r.neg_control(f["name"], bool(got) and not miss)
     return r
+
+
+# --------------------------------------------------------------------------------------- A11
+GD_ = "garnish_lang_traits::data::GarnishData::"
+CMP = {"core::cmp::PartialOrd::gt": "gt", "core::cmp::PartialOrd::lt": "lt", "core::cmp::PartialOrd::ge": "ge", "core::cmp::PartialOrd::le": "le",
+       "core::cmp::PartialEq::ne": "ne", "core::cmp::PartialEq::eq": "eq"}
+
+
+def drain_analysis(F, f):
+    """Work-list helpers that borrow the operand stack: returns (n_drain_conditions, violations).
+    state clean = the depth is known to be back at the mark (we just left a `get_register_len() > mark` test on its false edge);
+    any call that is handed the data object makes it unknown again; an Ok return needs clean; a direct pop needs a guard."""
+    mir = f["mir"]
+    asg = mirq.assignments(mir)
+    blocks = mir["blocks"]
+
+    def is_len_call(node):
+        return isinstance(node, dict) and node.get("k") == "Call" and (node.get("def") or "") == GD_ + "get_register_len"
+
+    def origin_calls(l):
+        return [o[2] for o in mirq.origins(mir, l, asg) if o[1] == "term"]
+
+    # marks: named locals computed from get_register_len() (directly or `len - k`)
+    def derives_from_len(l, depth=0):
+        if depth > 4:
+            return False
+        for o in mirq.origins(mir, l, asg):
+            if o[1] == "term":
+                if is_len_call(o[2]):
+                    return True
+                if (o[2].get("def") or "").startswith("core::ops::arith::") and o[2]["args"]:
+                    a0 = mirq.op_local(o[2]["args"][0])
+                    if a0 is not None and derives_from_len(a0, depth + 1):
+                        return True
+            elif o[2].get("k") == "BinaryOp":
+                for side in ("l", "r"):
+                    a0 = mirq.op_local(o[2][side])
+                    if a0 is not None and derives_from_len(a0, depth + 1):
+                        return True
+        return False
+
+    named = set(i for i, l in enumerate(mir["locals"]) if l.get("name"))
+    # drain conditions: cmp(len_now, mark) where len_now is a *fresh* get_register_len() temp and mark a named local derived from an earlier one
+    conds = {}  # block index -> (kind, clean_edge_is_false)
+    for bi, b in enumerate(blocks):
+        t = b["term"]
+        if b["cleanup"] or t["k"] != "Call" or (t.get("def") or "") not in CMP or len(t["args"]) != 2:
+            continue
+        ls = [mirq.op_local(a) for a in t["args"]]
+        if None in ls:
+            continue
+        def base(l):
+            # follow refs to the underlying local
+            out = set([l])
+            for o in mirq.origins(mir, l, asg):
+                if o[1] != "term" and o[2].get("k") == "Ref":
+                    out.add(o[2]["place"]["l"])
+                out.add(o[3])
+            return out
+        b0, b1 = base(ls[0]), base(ls[1])
+        fresh0 = any(is_len_call(c) for l in b0 for c in origin_calls(l)) and not (b0 & named)
+        fresh1 = any(is_len_call(c) for l in b1 for c in origin_calls(l)) and not (b1 & named)
+        mark0 = any(l in named and derives_from_len(l) for l in b0)
+        mark1 = any(l in named and derives_from_len(l) for l in b1)
+        k = CMP[t["def"]]
+        if fresh0 and mark1:
+            # len OP mark : "depth above mark" holds when gt / ne (true edge) -> clean on the false edge; le / eq -> clean on true edge
+            if k in ("gt", "ne"):
+                conds[bi] = "false"
+            elif k in ("le", "eq"):
+                conds[bi] = "true"
+        elif mark0 and fresh1:
+            if k in ("lt", "ne"):
+                conds[bi] = "false"
+            elif k in ("ge", "eq"):
+                conds[bi] = "true"
+    # the block after a cond call switches on its result
+    def cond_edges(bi):
+        t = blocks[bi]["term"]
+        tb = t["target"]
+        if tb is None:
+            return None
+        sw = blocks[tb]["term"]
+        # walk goto chains / negations are not handled: the result must be switched on directly
+        if sw["k"] != "SwitchInt":
+            return None
+        false_t = [bb for v, bb in sw["targets"] if v == 0]
+        true_t = sw["otherwise"]
+        if not false_t:
+            return None
+        return tb, false_t[0], true_t
+
+    viol = []
+    # forward exploration over (block, dirty, err)
+    seen = set()
+    work = [(0, False, False)]
+    guard_true_blocks = set()
+    while work:
+        bi, dirty, err = work.pop()
+        if (bi, dirty, err) in seen or blocks[bi]["cleanup"]:
+            continue
+        seen.add((bi, dirty, err))
+        b = blocks[bi]
+        for s in b["stmts"]:
+            if s["k"] == "Assign" and s["rv"]["k"] == "Aggregate" and s["rv"].get("variant") == "Err":
+                err = True
+        t = b["term"]
+        if t["k"] == "Return":
+            if dirty and not err:
+                viol.append(("ok-return-without-drain", loc(t), "an Ok return is reached without passing the exit edge of a `get_register_len() > mark` test after the last call that may push: operands borrowed for the walk (or pushed by a callee) can be left on the caller's operand stack, or the caller's own operands popped"))
+            continue
+        if t["k"] == "Call":
+            d = t.get("def") or ""
+            if d.endswith("::from_residual"):
+                err = True
+            if bi in conds:
+                ce = cond_edges(bi)
+                if ce:
+                    tb, false_b, true_b = ce
+                    clean_b = false_b if conds[bi] == "false" else true_b
+                    other_b = true_b if conds[bi] == "false" else false_b
+                    guard_true_blocks.add(other_b)
+                    work.append((clean_b, False, err))
+                    work.append((other_b, dirty, err))
+                    continue
+            passes_data = any("GarnishData" in (mir["locals"][mirq.op_local(a)]["ty"] if mirq.op_local(a) is not None else "") or (mirq.op_local(a) is not None and mir["locals"][mirq.op_local(a)]["ty"].startswith("&mut Data")) for a in t["args"])
+            if passes_data and d not in (GD_ + "get_register_len", GD_ + "get_data_type") and d not in CMP:
+                dirty = True
+        for s_ in mirq.succs(t):
+            work.append((s_, dirty, err))
+    # direct pops are guarded
+    dom = mirq.dominators(mir)
+    n_pop = 0
+    for bi, b in enumerate(blocks):
+        t = b["term"]
+        if not b["cleanup"] and t["k"] == "Call" and (t.get("def") or "") == GD_ + "pop_register":
+            n_pop += 1
+            if not any(g in dom.get(bi, set()) for g in guard_true_blocks):
+                viol.append(("unguarded-pop", loc(t), "pop_register at %s is not inside a `get_register_len() > mark` guard: the walk can pop operands that belong to its caller" % loc(t)))
+    return len(conds), viol, n_pop
+
+
+def rule_A11(ctx):
+    F = ctx.F
+    import json, os
+    from .facts import VERIF
+    r = RuleResult("A11", "drain to the mark: the work-list helpers that borrow the operand stack (A1's trusted summaries) return Ok only after leaving a `get_register_len() > mark` test on its exit edge, and pop only inside such a guard")
+    trusted = json.load(open(os.path.join(VERIF, "spec", "arity.json")))["trusted"]
+    n = 0
+    for p in sorted(trusted):
+        if trusted[p].get("nary"):
+            continue
+        f = F.fns.get(p)
+        if f is None:
+            r.finding(p, "trusted-helper-missing", "-", "the trusted summary names %s, which no longer exists: the summary is unverifiable" % p)
+            continue
+        nc, viol, n_pop = drain_analysis(F, f)
+        n += 1
+        r.examine((p,), True, {"fn": p, "drain_tests": nc, "direct_pops": n_pop, "violations": [v[0] for v in viol]})
+        if nc == 0:
+            r.finding(p, "no-drain-test", loc(f["hir"]), "%s has no `get_register_len()` test against a mark taken at entry: its trusted net effect on the operand stack is not supported by its code" % last(p))
+        seen = set()
+        for k, where, msg in viol:
+            if k in seen:
+                continue
+            seen.add(k)
+            r.finding(p, k, where, msg)
+    r.floor("trusted work-list helpers examined", n, 2)
+    for f in F.fns_in("gfixture::round3::a11::"):
+        if f["kind"] == "Closure" or not f.get("name", "").startswith(("ctl_", "ok_")):
+            continue
+        nc, viol, _np = drain_analysis(F, f)
+        if f["name"].startswith("ctl_"):
+            r.control(f["name"], bool(viol) or nc == 0)
+        else:
+            r.neg_control(f["name"], nc > 0 and not viol)
+    return r
